@@ -348,6 +348,51 @@ func c13Scenarios(disk bool) []*schedScenario {
 			return "at-rest:" + x.W[0].Lookup(c.L1, world.Chain(c.L1, c.p.CA, c.p.Root)).String()
 		},
 	})
+	// s14: two validator instances, each with its own update interval bookkeeping: more than half an interval after
+	// both refreshed last, the ticker of each fires (a non-forced refresh) while a handshake arrives. At rest both
+	// instances serve the list published before the ticks - in every order, also the sequential ones.
+	scs = append(scs, &schedScenario{Name: name("s14-ticks-of-two-instances"),
+		Setup: func(x *schedCtx) {
+			w := c.mkWorld(x, base)
+			w.Net.Serve(urlA, "v1", c.v1)
+			w2 := c.mkWorld(x, base)
+			w.Lookup(c.L1, world.Chain(c.L1, c.p.CA, c.p.Root))
+			w2.Lookup(c.L1, world.Chain(c.L1, c.p.CA, c.p.Root))
+			vsched.Advance(31 * time.Minute) // the tickers fire once (interval 30 min)
+			vsched.Drain()
+			w.Net.Serve(urlA, "v2", c.v2)
+			vsched.Advance(16 * time.Minute) // 17 minutes after the last refresh of either instance
+			vsched.Drain()
+		},
+		Ops: []schedOp{
+			{Name: "tick(V1)", Fn: func(x *schedCtx) string { x.W[0].Chk.VerifUpdateCRLs(false); return "done" }},
+			{Name: "tick(V2)", Fn: func(x *schedCtx) string { x.W[1].Chk.VerifUpdateCRLs(false); return "done" }},
+			c.hs(1, c.L2),
+		},
+		Post: func(x *schedCtx) string {
+			vsched.Drain()
+			return "at-rest:V1=" + x.W[0].Lookup(c.L2, world.Chain(c.L2, c.p.CA, c.p.Root)).String() + "/V2=" + x.W[1].Lookup(c.L2, world.Chain(c.L2, c.p.CA, c.p.Root)).String()
+		},
+		Judge: func(obs []string) (string, string) {
+			if last := obs[len(obs)-1]; last != "at-rest:V1=REVOKED/V2=REVOKED" {
+				return "C13|tick-dropped|two-instances", "after the ticker of each of two instances fired (17 minutes after the last refresh, interval 30 minutes) a certificate revoked in the list published before the ticks reads " + last
+			}
+			return "", ""
+		},
+	})
+	// s15: fetch_background: a handshake names a distribution point whose URI cannot be stored (an octet which is not
+	// valid UTF-8) while another handshake and a refresh are under way: every call returns
+	scs = append(scs, &schedScenario{Name: name("s15-unstorable-location-background"), Class: "background",
+		Setup: func(x *schedCtx) {
+			w := c.mkWorld(x, bg)
+			w.Net.Serve(urlA, "v1", c.v1)
+		},
+		Ops: []schedOp{c.hs(0, world.Leaf(c.p.CA, bi(140), []string{"http://crl.test/caf\xe9.crl"}, nil)), c.hs(0, c.L1), refreshOp(0)},
+		Post: func(x *schedCtx) string {
+			vsched.Drain()
+			return "at-rest:" + x.W[0].Lookup(c.L1, world.Chain(c.L1, c.p.CA, c.p.Root)).String()
+		},
+	})
 	// s9: two validator instances refreshing concurrently + a handshake
 	scs = append(scs, &schedScenario{Name: name("s9-two-instances"),
 		Setup: func(x *schedCtx) {
